@@ -459,6 +459,8 @@ func newEvalEngine(c Case) *evalEngine {
 		}
 		ee.eng.EnableSandbox(p)
 	}
+	var compiledRef, compiledDecoy *twig.Engine
+	var decoyNames []string
 	for _, tp := range c.list("tpls") {
 		t, _ := tp.([]interface{})
 		if len(t) != 2 {
@@ -467,12 +469,68 @@ func newEvalEngine(c Case) *evalEngine {
 		n, _ := t[0].(string)
 		s, _ := t[1].(string)
 		name, src := unhex(n), unhex(s)
-		if err := ee.eng.RegisterString(name, src); err != nil && ee.regOK {
+		var err error
+		switch evalRegisterRoute {
+		case "parsed":
+			var t *twig.Template
+			if t, err = ee.eng.ParseTemplate(src); err == nil {
+				ee.eng.RegisterTemplate(name, t)
+			}
+		case "compiled-shared":
+			if compiledRef == nil {
+				compiledRef, compiledDecoy = twig.New(), twig.New()
+			}
+			if err = compiledRef.RegisterString(name, src); err == nil {
+				var ct *twig.CompiledTemplate
+				if ct, err = compiledRef.CompileTemplate(name); err == nil {
+					// the same compiled object goes to another engine first, whose templates of these names are others
+					if compiledDecoy.RegisterCompiledTemplate(ct) == nil {
+						decoyNames = append(decoyNames, name)
+					}
+					err = ee.eng.RegisterCompiledTemplate(ct)
+				}
+			}
+		default:
+			err = ee.eng.RegisterString(name, src)
+		}
+		if err != nil && ee.regOK {
 			ee.regOK = false
 			ee.regEr = name + ": " + err.Error()
 		}
 	}
+	for _, n := range decoyNames {
+		compiledDecoy.RegisterString(n, "DECOY:"+n)
+	}
 	return ee
+}
+
+// evalRegisterRoute, when set, is the way newEvalEngine hands the case's templates to the engine: "parsed" is
+// ParseTemplate followed by RegisterTemplate, "compiled-shared" compiles each template once on another engine and
+// registers that one compiled object first with a third engine (which then gets other templates under the same
+// names) and then with the engine under test.
+var evalRegisterRoute string
+
+// evalByOtherRoutes renders the case's main template on engines that received the templates by each of the other
+// routes and describes the first outcome that differs from (out, class); "" when none does.
+func evalByOtherRoutes(c Case, ctx map[string]interface{}, prepare func(*evalEngine), out, class string) string {
+	for _, route := range []string{"parsed", "compiled-shared"} {
+		evalRegisterRoute = route
+		ee := newEvalEngine(c)
+		evalRegisterRoute = ""
+		var out2, class2 string
+		if !ee.regOK {
+			out2, class2 = "", "parse"
+		} else {
+			if prepare != nil {
+				prepare(ee)
+			}
+			out2, class2, _ = ee.render(c.str("main"), ctx)
+		}
+		if out2 != out || class2 != class {
+			return "with the templates handed over by route " + route + ": " + evalObserved(out2, class2) + " instead of " + evalObserved(out, class)
+		}
+	}
+	return ""
 }
 
 // render renders template name with ctx; a panic is reported as class "panic".
